@@ -1190,7 +1190,11 @@ func (c *Ctx) evalCall(e *Expr, env *Env) *Val {
 			}
 			k++
 		}
-		c.specErr("outerresult(%d): the function has no such result cell", want)
+		var cells []string
+		for _, fv := range c.fn.FreeVars {
+			cells = append(cells, fmt.Sprintf("%q:%s", fv.Name(), fv.Type()))
+		}
+		c.specErr("outerresult(%d): the function has no such result cell (free variables: %s)", want, strings.Join(cells, ", "))
 		return nil
 	case "deref":
 		// deref(p): current content of the variable p points to (captured variables of closures)
